@@ -142,6 +142,11 @@ func (r *Report) Case(sig string, nontrivial bool) {
 	}
 	partial := r.evaluations%200 == 0
 	r.mu.Unlock()
+	if partial && os.Getenv("VERIF_DEBUG_MEM") != "" {
+		var ms runtime.MemStats
+		runtime.ReadMemStats(&ms)
+		fmt.Fprintf(os.Stderr, "MEM cases=%d heap_alloc=%dMB heap_sys=%dMB stack_sys=%dMB other_sys=%dMB goroutines=%d\n", r.evaluations, ms.HeapAlloc>>20, ms.HeapSys>>20, ms.StackSys>>20, (ms.Sys-ms.HeapSys-ms.StackSys)>>20, runtime.NumGoroutine())
+	}
 	if partial && os.Getenv("VERIF_OUT") != "" {
 		// keep a partial result on disk: a crash of the system under test must not erase
 		// what the lane had observed so far
